@@ -9,6 +9,7 @@
 //! including a destructive probe for expiry entries left behind on absent keys.
 //! If the reply is an Error, or `cmd.is_read_only()`, everything must be equal.
 
+mod big;
 mod forms;
 mod state;
 
@@ -491,6 +492,16 @@ fn main() {
         },
         check,
     );
+
+    // not scaled by the work factor: a fixed handful of large-value cases, run one at a time
+    s.describe_check(
+        "big_values",
+        "enumerated: key holding ONE large element (1 MiB, 16 MiB, 32 MiB+, 64 MiB-, 64 MiB+, 72 MiB, 130 MiB) as string value / list element / set member / hash value, \
+         x every data-returning write command (SET..GET, GETSET, GETDEL, GETEX, LPOP, RPOP, RPOPLPUSH, LMOVE, SPOP) and every large-reply read command, directly and through one-call redis.call / redis.pcall scripts; \
+         large arguments (SET/APPEND/LPUSH/SADD/HSET/ZADD of 64 MiB+), APPEND past 512 MiB, SETRANGE/SETBIT around the 512 MiB limit. Snapshot = type, per-element (length, sampled checksum), PTTL from get_data(). \
+         non-trivial = error reply or read-only classification; distinct by (holder, size, command, path)",
+    );
+    s.run_enumerated("big_values", big::big_cases().into_iter(), big::check_big);
 
     s.finish();
 }
